@@ -1,0 +1,31 @@
+//go:build verif
+
+package selector
+
+// Contracts for govc (see /verif/DESIGN.md §5 C07, C10). Comment-only; compiled
+// only under the build tag "verif".
+
+// ---- the Selector interface: every method is read-only ----
+
+//@ interface Selector.Interests() (r)
+//@   assigns nothing
+//@ interface Selector.Explore(n, ps) (s, err)
+//@   assigns nothing
+//@ interface Selector.Decide(n) (r)
+//@   assigns nothing
+//@ interface Selector.Match(n) (m, err)
+//@   assigns nothing
+
+// ---- subset matcher bounds (from the documentation of Slice: [From,To), negative = from the end,
+//      To clipped to the length, no match when From is beyond the end or beyond To) ----
+
+//@ pure func normTo(to mathint, length mathint) mathint = to < 0 ? length + to : (length < to ? length : to)
+//@ pure func normFrom(from mathint, length mathint) mathint = from < 0 ? (length + from < 0 ? 0 : length + from) : from
+
+//@ func sliceBounds(from, to, length) (ok, f, t)
+//@   requires length >= 0
+//@   assigns nothing
+//@   ensures[C07,C10] ok ==> 0 <= f && f <= t && t <= length && f < length
+//@   ensures[C07] ok ==> f == normFrom(from, length) && t == normTo(to, length)
+//@   ensures[C07] ok == (normFrom(from, length) <= normTo(to, length) && normFrom(from, length) < length)
+//@   ensures[C07] !ok ==> f == 0 && t == 0
